@@ -189,7 +189,20 @@ def check_degree_recompute(ctx, rule='A11'):
     f2 = ctx.fn(f'{DSG}._update_connector_grouping_degrees')
     cs = calls(f2, 'update_deg', pred=lambda c: c.args and norm(c.args[0]) == 'self._graph')
     exists(ctx, rule, f2, cs, 'recompute-uses-own-graph', 'the recomputation uses the graph being constructed')
-    return n + 2
+    # (d) the recomputation itself is unconditional: the degree lives on the node object, which all graphs of a design
+    # space share - every normal path through update_deg re-assigns it from the members found in *this* graph (a
+    # shortcut "nothing changed since the last call" compares with whatever graph was looked at last)
+    f3 = ctx.fn(f'{NODES}:ConnectorDegreeGroupingNode.update_deg')
+    cfg3 = build_cfg(f3)
+    assigns = [nd for nd in cfg3.nodes if nd.kind == 'stmt' and isinstance(nd.ast, ast.Assign) and
+               any(is_self_attr(t_) and t_.attr.startswith('deg_')
+                   for t in nd.ast.targets for t_ in (t.elts if isinstance(t, ast.Tuple) else [t]))]
+    if not assigns:
+        raise AnalysisError('ConnectorDegreeGroupingNode.update_deg: the degree attributes are not assigned here')
+    guards.check_passes(ctx, rule, f3, [cfg3.exit], assigns, 'degree-reassigned-on-every-path',
+                        'every normal path through update_deg re-assigns the combined degree from the members present '
+                        'in the given graph (no shortcut on remembered state: the node object is shared by all graphs)')
+    return n + 3
 
 
 def check_class_level_writes(ctx, rule='A11c'):
